@@ -47,6 +47,7 @@ REFUTATIONS = {
     "C10_reader_reply_not_linearizable": "reply:get:appointment-visible-before-its-trigger-is-handled",
     "C10_reader_purge_reply_not_linearizable": "reply:get:not-found-after-its-owner-was-purged",
     "C10_reader_add_reply_not_linearizable": "reply:getsub:charged-before-the-appointment-is-stored",
+    "C10_reader_block_reply_not_linearizable": "reply:get:expiry-test-before-the-block-tables-after-it",
 }
 
 
